@@ -25,6 +25,9 @@ struct Plan {
     bound: Option<(usize, usize, &'static str)>,
     end: End,
     max_headers: Option<usize>,
+    /// allocation allowance per wire byte (4 by default; a header map the caller allowed to grow costs
+    /// ~100-150 bytes per received field of >= 6 wire bytes, doubled by vector growth)
+    alloc_factor: usize,
     method: &'static str,
     rereads: usize,
     read_size: usize,
@@ -67,6 +70,7 @@ fn blowup(g: &mut G) -> String {
 fn gen(g: &mut G, thorough: bool) -> Plan {
     let mut bound = None;
     let mut max_headers = None;
+    let mut alloc_factor = 4usize;
     let mut desc = String::new();
     let mut read_cap = 4 << 20;
     let kindsel = g.below(12);
@@ -186,8 +190,11 @@ fn gen(g: &mut G, thorough: bool) -> Plan {
                     ("endless-header-line", w)
                 }
                 2 => {
-                    let mh = *g.pick(&[0usize, 3, 100]);
+                    // the limit is the caller's to choose: also limits far above the default ("no limit")
+                    let mh = *g.pick(&[0usize, 3, 100, 100, 30_000, 70_000, usize::MAX - 1]);
                     max_headers = if mh == 100 { None } else { Some(mh) };
+                    let total = if mh > 100 { g.probe("header-fields-under-a-raised-limit"); alloc_factor = 32; total.max(1 << 20) } else { total };
+                    let mh = mh.min(total / 8);
                     let mut w = b"HTTP/1.1 200 OK\r\n".to_vec();
                     let mut i = 0;
                     let same_name = g.chance(1, 2);
@@ -274,6 +281,7 @@ fn gen(g: &mut G, thorough: bool) -> Plan {
         bound,
         end,
         max_headers,
+        alloc_factor,
         method: *g.pick(&["GET", "GET", "HEAD", "POST"]),
         rereads: g.below(5) as usize,
         read_size: if kind == "gzip-bomb" { *g.pick(&[8192usize, 65536, 4096]) } else { *g.pick(&[8192usize, 1, 100, 65536]) },
@@ -424,7 +432,7 @@ pub fn scenario(g: &mut G, ctx: &RunCtx) -> RunReport {
             }
             // allocation: nothing proportional to a declared size.  Calibrated on the unchanged tree:
             // largest single request is the 64 KiB chunk buffer / inflate state; head lines <= 16 KiB.
-            let head_room = 4 * p.wire.len().min(1 << 20);
+            let head_room = p.alloc_factor * p.wire.len().min(1 << 20);
             if v == Verdict::Pass && o.max_req > (1 << 20) + head_room {
                 v = violation(
                     format!("large-allocation:{}", p.kind),
